@@ -590,6 +590,17 @@ def text_cases(ctx, tier):
                     yield {"op": "text", "d": d, "keys": keys, "vectors": vs, "v": x,
                            "v_form": rng.choice(["array", "pointer"]), "minimum": mn, "maximum": mx, "threshold": thr,
                            "join": rng.choice(JOINS) if rng.random() < 0.3 else ";", "terms": terms, "normalize": nz}
+    # similarities that differ only in the third decimal, on both sides of a threshold (exact dyadic values): order and
+    # threshold are decided by the similarities themselves, not by their printed two-decimal form
+    e = 1.0 / 256
+    close_vs = [[0.5 + e, 0, 0, 0], [0.5 + 3 * e, 0, 0, 0], [0.5 - e, 0, 0, 0], [0.5, 0, 0, 0], [0.5 + 2 * e, 0, 0, 0]]
+    close_keys = ["A", "B", "C", "D", "E"]
+    for thr in (0.5, None, 0.1, 0.5 + e):
+        for mn, mx in ((None, None), (0, 3), (1, 2), (2, None), (0, None)):
+            for form in ("array", "pointer"):
+                yield {"op": "text", "d": 4, "keys": close_keys, "vectors": close_vs, "v": [1.0, 0.25, -0.5, 2.0],
+                       "v_form": form, "minimum": mn, "maximum": mx, "threshold": thr, "join": ";", "terms": None,
+                       "normalize": False}
     # defaults, negative counts, malformed
     for d, keys, vs in vocabs:
         for _ in range(3):
